@@ -47,6 +47,39 @@ def flatten(v, conds=()):
     return [(frozenset(conds), v)]
 
 
+def lit(v, pol=True):
+    """(atom, polarity) of a condition given as a cel value (or key), as it appears in a flattened path."""
+    k = v if isinstance(v, tuple) else cel.vkey(v)
+    a, p = norm_cond(("if", k))
+    return (a, p if pol else not p)
+
+
+def int_feasible(cset, var, domain):
+    """Value-set analysis of one integer variable along a path: (feasible values of `var` in `domain` under the path's literals that mention only `var`,
+    the remaining literals). Literals are integer comparisons `p < 0` / `p == 0` with p a polynomial in `var` alone."""
+    mine, rest = [], []
+    for a, pol in atoms(cset):
+        p = None
+        if isinstance(a, tuple) and a[:2] == ("sym", "cmp") and len(a) == 4 and a[2] in ("Lt", "Le", "Eq"):
+            q = cel.poly_from_key(a[3])
+            names = {at for (mono, tens) in q.t for at, _ in mono}
+            if tens_free(q) and names <= {var}:
+                p = q
+        if p is None:
+            rest.append((a, pol))
+        else:
+            mine.append((a[2], p, pol))
+
+    def val(p, t):
+        return sum(c * (t ** sum(e for _, e in mono)) for (mono, _), c in p.t.items())
+    feas = [t for t in domain if all(({"Lt": val(p, t) < 0, "Le": val(p, t) <= 0, "Eq": val(p, t) == 0}[rel]) == pol for rel, p, pol in mine)]
+    return feas, frozenset(rest)
+
+
+def tens_free(p):
+    return all(tens is None for (_, tens) in p.t)
+
+
 def atoms(cset):
     """Split a path's condition set into literals: a refuted disjunction contributes each disjunct refuted, an established conjunction each conjunct
     established (De Morgan), recursively — so `if a || b {return}` and `if a {return} if b {return}` leave the same literals behind."""
